@@ -1113,15 +1113,29 @@ pub fn dial_in_exchange_fin(t: &crate::fixture::Torrent, dir: &PathBuf, chunks: 
         if fin && !closed {
             let _ = sock.shutdown().await;
         }
-        while !closed {
-            match tokio::time::timeout(std::time::Duration::from_millis(if fin { 1500 } else { 400 }), sock.read(&mut buf)).await {
+        // read until the client closes; otherwise until it has been quiet for 400 ms — but (so that
+        // a slow machine does not look like a silent client) not before `min_wait` has passed when
+        // nothing at all has arrived yet, and for at most 6 s
+        let began = std::time::Instant::now();
+        let min_wait = std::time::Duration::from_millis(1500);
+        while !closed && began.elapsed() < std::time::Duration::from_secs(6) {
+            match tokio::time::timeout(std::time::Duration::from_millis(400), sock.read(&mut buf)).await {
                 Ok(Ok(0)) | Ok(Err(_)) => closed = true,
                 Ok(Ok(n)) => after.extend_from_slice(&buf[..n]),
-                Err(_) => break,
+                Err(_) => {
+                    if !after.is_empty() || began.elapsed() >= min_wait {
+                        break;
+                    }
+                }
             }
         }
-        tokio::time::sleep(std::time::Duration::from_millis(100)).await;
-        let snap = rdest::verif::session_snapshot();
+        // the manager's reaction to the end of the connection (KillReq) may take a moment longer
+        let mut snap = rdest::verif::session_snapshot();
+        let waited = std::time::Instant::now();
+        while fin && waited.elapsed() < std::time::Duration::from_secs(4) && snap.as_ref().map(|s| !s.peers.is_empty()).unwrap_or(true) {
+            tokio::time::sleep(std::time::Duration::from_millis(50)).await;
+            snap = rdest::verif::session_snapshot();
+        }
         session_task.abort();
         Ok::<_, String>((before, after, closed, snap))
     });
